@@ -348,6 +348,11 @@ var ruleFailProp = &core.Rule{ID: "R08.2", Min: 12,
 			for _, e := range edges {
 				for blk := range core.Reach(e.to) {
 					if !core.EdgeDominates(e.from, e.to, blk) {
+						// the failed path runs back into code that the successful path also reaches: the failure is forgotten
+						if r := retOf(blk); r != nil && !core.IsConstInt(r.Results[0], 0) {
+							s.Bad(fmt.Sprintf("%s: %s reachable after failed %s", f.Name(), returnOrdinal(r), callOrdinal(e.calls[0])), c.Pos(r.Pos()),
+								fmt.Sprintf("after %s failed (edge b%d->b%d) the scanner can continue on the path of a successful value and return %s: the failed value is taken as consumed", e.calls[0].Call.StaticCallee().Name(), e.from.Index, e.to.Index, r.Results[0]))
+						}
 						continue
 					}
 					if len(blk.Instrs) == 0 {
@@ -1042,6 +1047,84 @@ func (m *jsonModel) depthTaking(h *ssa.Function) bool {
 	}
 	return visit(h)
 }
+
+// R08.7: completeness needs the nesting that the cap allows to be exactly the
+// nesting of the document: one unit of depth per container level.
+var ruleDepthCost = &core.Rule{ID: "R08.7", Min: 2,
+	Doc: "each container level costs exactly one unit of depth: on every call path from the guarded value scanner through a container scanner (and wrappers) back to the value scanner the depth argument grows by exactly 1, so a document nested as deep as the cap allows is still scanned (R16.2 only needs at least 1)",
+	Run: func(c *core.Ctx, s *core.Sink) {
+		m := getJSON(c)
+		g := m.guardFn
+		if g == nil {
+			core.Bail("guard function of the scanner not found")
+		}
+		units := append([]*ssa.Function{}, m.famList...)
+		for w := range m.wrap {
+			units = append(units, w)
+		}
+		sort.Slice(units, func(i, j int) bool { return units[i].String() < units[j].String() })
+		inUnits := map[*ssa.Function]bool{}
+		for _, f := range units {
+			inUnits[f] = true
+		}
+		type edge struct {
+			to   *ssa.Function
+			inc  int64
+			call *ssa.Call
+		}
+		adj := map[*ssa.Function][]edge{}
+		for _, f := range units {
+			fdp := intParamIndex(f)
+			for _, ci := range core.Calls(f) {
+				call, ok := ci.(*ssa.Call)
+				if !ok {
+					continue
+				}
+				h := call.Call.StaticCallee()
+				if h == nil || !inUnits[h] || intParamIndex(h) < 0 || !m.depthTaking(h) || fdp < 0 {
+					continue
+				}
+				arg := call.Call.Args[intParamIndex(h)]
+				inc := int64(-1 << 40)
+				if arg == ssa.Value(f.Params[fdp]) {
+					inc = 0
+				} else if bo, ok := arg.(*ssa.BinOp); ok && bo.Op == token.ADD && bo.X == ssa.Value(f.Params[fdp]) {
+					if k, ok := core.ConstInt(bo.Y); ok {
+						inc = k
+					}
+				}
+				if inc < 0 {
+					continue // reported by R16.2
+				}
+				adj[f] = append(adj[f], edge{h, inc, call})
+			}
+		}
+		// all simple paths g -> ... -> g (the graph without g is acyclic by R16.2): enumerate with a depth bound
+		n := 0
+		var walk func(f *ssa.Function, sum int64, first *ssa.Call, depth int, path string)
+		walk = func(f *ssa.Function, sum int64, first *ssa.Call, depth int, path string) {
+			if depth > len(units)+1 {
+				return
+			}
+			for _, e := range adj[f] {
+				fc := first
+				if fc == nil {
+					fc = e.call
+				}
+				if e.to == g {
+					n++
+					key := fmt.Sprintf("depth cost of the cycle %s -> %s", path, g.Name())
+					s.Check(sum+e.inc == 1, key, c.Pos(fc.Pos()), "exactly 1 per container level", fmt.Sprintf("one level of nesting through %s -> %s costs %d units of depth: documents nested less deep than the recursion limit are rejected (or the limit is reached late)", path, g.Name(), sum+e.inc))
+					continue
+				}
+				walk(e.to, sum+e.inc, fc, depth+1, path+" -> "+e.to.Name())
+			}
+		}
+		walk(g, 0, nil, 0, g.Name())
+		if n == 0 {
+			s.Bad("recursion cycles through the value scanner", c.Pos(g.Pos()), "no cycle from the guarded value scanner back to itself found")
+		}
+	}}
 
 func valueOf(in ssa.Instruction) ssa.Value {
 	v, _ := in.(ssa.Value)
